@@ -22,15 +22,17 @@ def success_blocks(b):
 
 
 def controlling_switch(b, blk):
-    """Nearest dominating switch block on which `blk` is control dependent (reached from some but not all successors)."""
+    """Nearest dominating switch block on which `blk` is control dependent: some successor of the switch can finish the
+    function without passing through `blk` (so the switch decides whether `blk` runs)."""
     doms = [d for d in b.dom[blk] if d != blk and b.blocks[d]["term"]["k"] == "switch"]
-    # order by depth: a dominator with the largest dominator set is the closest
-    doms.sort(key=lambda d: -len(b.dom[d]))
+    doms.sort(key=lambda d: -len(b.dom[d]))      # closest first
+    rets = set(b.return_blocks())
     for d in doms:
         succ = b.succ[d]
-        reach = [blk == s or blk in b.reachable(s, avoid=[d]) for s in succ]
-        if any(reach) and not all(reach):
-            return d, [s for s, r in zip(succ, reach) if r], [s for s, r in zip(succ, reach) if not r]
+        avoid_ok = [bool(rets & b.reachable(s, avoid=[blk])) if s != blk else False for s in succ]
+        reach = [blk == s or blk in b.reachable(s) for s in succ]
+        if any(reach) and any(avoid_ok):
+            return d, [s for s, r in zip(succ, reach) if r], [s for s, a in zip(succ, avoid_ok) if a]
     return None, [], []
 
 
